@@ -152,7 +152,7 @@ def check_case(case, res=None):
 
 
 def plan(tier):
-    return [{"n": 3}] * 16 if tier == "quick" else [{"n": 125}] * 16
+    return [{"n": 3}] * 16 if tier == "quick" else [{"n": 20}] * 16
 
 
 def run_shard(spec, seed, res, only_bucket=None):
